@@ -821,3 +821,69 @@ Proof. induction sched; simpl; intros; auto. rewrite IHsched. apply written_step
 Lemma written_all : forall N MM frame ws rs sched,
   written (run N MM frame (init N ws rs) sched) = map wmsg ws.
 Proof. intros. rewrite written_run. reflexivity. Qed.
+
+(* ======================================================================== *)
+(* Statements over all scripts and all schedules                              *)
+Definition frame_ok (frame : list byte -> Z) (wf : msg -> Prop) : Prop :=
+  forall m rest, wf m -> frame (m ++ rest) = zlen m.
+Definition script_ok (wf : msg -> Prop) (ws : list wop) : Prop :=
+  Forall (fun o => okmsg wf (wmsg o)) ws.
+Definition reach (N MM : Z) (frame : list byte -> Z) (ws : list wop) (rs : list rop) (sched : list tid) : state :=
+  run N MM frame (init N ws rs) sched.
+
+Section Top.
+Variable N MM : Z.
+Variable frame : list byte -> Z.
+Variable wf : msg -> Prop.
+Hypothesis N_pos : 0 < N.
+Hypothesis FR : frame_ok frame wf.
+Variable ws : list wop.
+Variable rs : list rop.
+Variable sched : list tid.
+Hypothesis WS : script_ok wf ws.
+
+Let s := reach N MM frame ws rs sched.
+
+Lemma reach_inv : Inv N MM wf s.
+Proof. apply inv_reach; auto. Qed.
+
+Lemma top_inv_step : forall s0 t, Inv N MM wf s0 -> Inv N MM wf (step N MM frame s0 t).
+Proof. intros; apply inv_step; auto. Qed.
+
+Lemma top_fifo : nreads (out s) = firstn (length (nreads (out s))) (accs_of (out s)).
+Proof. apply (fifo N MM wf), reach_inv. Qed.
+
+Lemma top_accepted_written : wlog (out s) ++ inflight (wp s) ++ map wmsg (wscr s) = map wmsg ws.
+Proof. apply written_all. Qed.
+
+Lemma top_lookahead : reads_ok (accs_of (out s)) (out s) O O.
+Proof. apply (lookahead N MM wf), reach_inv. Qed.
+
+Lemma top_hasnext_lin : Forall has_ok (out s) /\
+  (forall la, reading (rp s) = Some la -> (j0 s la < length (acc s))%nat).
+Proof.
+  split; [apply (hasnext_lin N MM wf), reach_inv|].
+  intros la H. apply (hasnext_stable N MM wf s la reach_inv H).
+Qed.
+
+Lemma top_drop_whole :
+  (wp_len (wp s) = Some 0 -> shared_eq s (wstep N MM s)) /\
+  (forall m len wv, wp s = WSizeR m len wv ->
+     (len <= N - 1 - (Wv s - Rv s) -> wp (wstep N MM s) = WNextW m len) /\
+     (N - 1 - (Wv s - Rv s) < len ->
+        shared_eq s (wstep N MM s) /\ wp (wstep N MM s) = WIdle /\ out (wstep N MM s) = out s ++ [ODrop m])) /\
+  Forall (fun m => zlen m <= MM) (acc s).
+Proof.
+  pose proof reach_inv as I. split; [|split].
+  - intros H. apply (drop_maxmsg N MM wf N_pos s I H).
+  - intros m len wv H. apply (write_decision N MM wf N_pos s m len wv I H).
+  - pose proof (i_acc _ _ _ _ I) as F. rewrite Forall_forall in *. intros x Hx.
+    destruct (F x Hx) as (_ & _ & ?). auto.
+Qed.
+
+Lemma top_drf : forall i, wfoot s = Some i -> rfoot N s i = false.
+Proof. intros i. apply (drf N MM wf N_pos s i reach_inv). Qed.
+
+Lemma top_safe : err s = false.
+Proof. apply (safe N MM wf), reach_inv. Qed.
+End Top.
